@@ -281,6 +281,55 @@ fn mixing_case(c: &(String, Vec<PureRecord<DipprRecord>>, Array1<f64>, f64), rec
         let sc: f64 = n.iter().zip(mu.iter()).map(|(a, b)| (a * b).abs()).sum();
         rec.check("ideal_gas_euler", &format!("V x {vf:e}"), (g - nm).abs() / (1e-10 * sc), true, || format!("A_ig + p_ig V = {g:e}, sum N_i mu_i^ig = {nm:e}"));
     }
+    // every ordered sub-system taken with Components::subset is the ideal gas of exactly those components (DIPPR here, and a
+    // Joback mixture of group-contribution substances)
+    {
+        use feos_core::Components;
+        let n = x.len();
+        let mut lists: Vec<Vec<usize>> = (0..n).map(|i| vec![i]).collect();
+        for i in 0..n {
+            for j in 0..n {
+                if i != j {
+                    lists.push(vec![i, j]);
+                }
+            }
+        }
+        let props_of = |e: &Arc<EquationOfState<Dippr, feos_core::NoResidual>>, xs: &Array1<f64>| -> Vec<f64> {
+            let st = State::new_nvt(e, *t * KELVIN, v, &(xs * MOL)).unwrap();
+            let mut o = vec![st.molar_isobaric_heat_capacity(Contributions::IdealGas).to_reduced(), st.molar_entropy(Contributions::IdealGas).to_reduced(), st.molar_enthalpy(Contributions::IdealGas).to_reduced()];
+            o.extend(st.chemical_potential(Contributions::IdealGas).to_reduced().iter());
+            o
+        };
+        for l in lists {
+            let sub = Arc::new(mix.subset(&l));
+            let direct = Arc::new(EquationOfState::ideal_gas(Arc::new(Dippr::from_records(l.iter().map(|&i| recs[i].clone()).collect(), None).unwrap())));
+            let xs: Array1<f64> = l.iter().map(|&i| x[i]).collect();
+            let (a, b) = (props_of(&sub, &xs), props_of(&direct, &xs));
+            let worst = a.iter().zip(b.iter()).map(|(u, w)| (u - w).abs() / (1e-12 * (u.abs().max(w.abs()) + t))).fold(0.0, f64::max);
+            rec.check("ideal_gas_subset", &format!("dippr|{l:?}"), worst, true, || format!("subset({l:?}) of the DIPPR mixture gives {a:?}, the model built from those records {b:?}"));
+        }
+        // Joback: three group-contribution substances, every single-component and ordered two-component subset
+        let names = ["propane", "1-butanol", "hexane"];
+        if let Some(j) = zoo::joback_for(&names) {
+            let jm = Arc::new(EquationOfState::ideal_gas(Arc::new(j)));
+            let pj = |e: &Arc<EquationOfState<feos::ideal_gas::Joback, feos_core::NoResidual>>, xs: &Array1<f64>| -> Vec<f64> {
+                let st = State::new_nvt(e, *t * KELVIN, v, &(xs * MOL)).unwrap();
+                let mut o = vec![st.molar_isobaric_heat_capacity(Contributions::IdealGas).to_reduced(), st.molar_entropy(Contributions::IdealGas).to_reduced()];
+                o.extend(st.chemical_potential(Contributions::IdealGas).to_reduced().iter());
+                o
+            };
+            for l in [vec![0usize], vec![1], vec![2], vec![0, 2], vec![2, 0], vec![1, 2], vec![2, 1], vec![1, 0]] {
+                let sub = Arc::new(jm.subset(&l));
+                let nn: Vec<&str> = l.iter().map(|&i| names[i]).collect();
+                let Some(d) = zoo::joback_for(&nn) else { continue };
+                let direct = Arc::new(EquationOfState::ideal_gas(Arc::new(d)));
+                let xs: Array1<f64> = l.iter().map(|&i| [0.2, 0.3, 0.5][i]).collect();
+                let (a, b) = (pj(&sub, &xs), pj(&direct, &xs));
+                let worst = a.iter().zip(b.iter()).map(|(u, w)| (u - w).abs() / (1e-12 * (u.abs().max(w.abs()) + t))).fold(0.0, f64::max);
+                rec.check("ideal_gas_subset", &format!("joback|{l:?}"), worst, true, || format!("subset({l:?}) of the Joback mixture gives {a:?}, the model built for {nn:?} gives {b:?}"));
+            }
+        }
+    }
     let s = State::new_nvt(&mix, *t * KELVIN, v, &(x * MOL)).unwrap();
     // mixture heat capacity is the mole-fraction average of the pure ones
     let cpm = s.molar_isobaric_heat_capacity(Contributions::IdealGas).to_reduced();
